@@ -17,10 +17,12 @@ import pickle
 
 from common import InfraError, call
 
-RULE = ("flat: cycles of 1..6 (sometimes 7..60) elements, durations 1..9 (sometimes up to 10^6 / 10^12; given as int, numpy.int64 or "
-        "numpy.int32), all colours, offsets 0..20 / large / argument omitted, ~40 time steps per case (both ends of every element's "
-        "window in periods -2..3, -3..+5 periods around the offset, far-away steps up to +-10^15; as int, numpy.int64 or "
-        "numpy.int32). hist: one cycle object (1..5 elements, the same element object possibly at two positions; every optional "
+RULE = ("flat: cycles of 1..6 (sometimes 7..60) elements, durations 1..9 (sometimes up to 10^6 / 10^12 / above 2^53 up to "
+        "the int64 edge; given as int, numpy.int64 or numpy.int32), all colours, offsets 0..20 / large / above 2^53 up to the int64 edge / "
+        "argument omitted, ~40 time steps per case (both ends of every element's "
+        "window in periods -2..3, -3..+5 periods around the offset, far-away steps up to +-10^15 and, in 3 of 10 cases, the whole range the library computes exactly: |t - offset| "
+        "just above 2^53, 10^17, 10^16 periods away, window ends in the last periods before t - offset = +-2^63, the edges themselves, "
+        "Python-int steps beyond int64; as int, numpy.int64 or numpy.int32). hist: one cycle object (1..5 elements, the same element object possibly at two positions; every optional "
         "constructor argument of TrafficLightCycle and TrafficLight given / omitted / None; light free, held by a LaneletNetwork or a "
         "Scenario, or written to XML / protobuf and read back) under 3..12 operations: queries through the cycle, the light and the "
         "holder; time_offset / cycle_elements setters (new list, same list edited in place and re-assigned, permutation of the held "
@@ -31,9 +33,13 @@ RULE = ("flat: cycles of 1..6 (sometimes 7..60) elements, durations 1..9 (someti
         "JSON of the case; non-trivial = every case (flat: >= 1 step outside the first period or at a phase boundary; hist: >= 1 "
         "query after >= 1 other operation)")
 ASSUMPTIONS = ["numpy cumsum/insert/argmax on int64 denote their list counterparts (sampled by the correspondence)",
-               "durations, offsets, time steps and every sum of them fit the integer type they are given in (int64 for Python "
-               "ints; numpy.int32 values are only generated below 2^31 including the total duration); the model uses unbounded "
-               "integers. Unsigned and 8/16-bit numpy integers are not generated (their wrap-around is numpy's, not the cycle's)",
+               "the integers generated are those the unmodified library computes exactly in int64 (boundary measured on the real "
+               "code with warnings as errors, `inside`): offset + total duration <= 2^63 - 1 (the last entry of the table) and "
+               "-2^63 <= t - offset <= 2^63 - 1; when the time step or the offset is numpy-typed the time step is an int64 itself, with Python "
+               "ints on both sides it may lie beyond int64 as long as t - offset does not. Beyond that numpy raises OverflowError (Python int operand) or wraps around "
+               "(numpy operand, RuntimeWarning): no verdict. numpy.int32 values are only generated below 2^31 including the total "
+               "duration; the model uses unbounded integers. Unsigned and 8/16-bit numpy integers are not generated (their "
+               "wrap-around is numpy's, not the cycle's)",
                "outside the quantifier ('one or more elements with positive integer durations, offset >= 0'), no verdict: a cycle "
                "with no elements / constructed with cycle_elements=None, a light without a cycle, durations <= 0, negative offsets, "
                "non-integer time steps; an emptied cycle is only queried to leave a failed call behind (the call must raise or "
@@ -52,6 +58,8 @@ REQUIRED_BUCKETS = ["single-element", "t<offset", "boundary", "many-periods", "l
                     # generator audit
                     "flat/ityp-np.int64", "flat/ityp-np.int32", "flat/ttyp-np.int64", "flat/ttyp-np.int32", "flat/offset-omitted",
                     "flat/many-elements", "flat/huge-duration", "flat/huge-t",
+                    "flat/|t-off|>2^53", "flat/t-off-at-int64-edge", "flat/t-beyond-int64", "flat/offset>2^53", "flat/total>2^53",
+                    "flat/table-end-at-int64-max", "q/|t-off|>2^53",
                     "hist/alias", "hist/off-omitted", "hist/cyc-active-False", "hist/cyc-active-omitted", "hist/no-light",
                     "hist/light-pos-None", "hist/light-pos-3d", "hist/light-id-0", "hist/light-shape", "hist/light-color-empty",
                     "hist/light-active-False", "hist/light-direction-given",
@@ -91,7 +99,7 @@ DIMENSIONS = {
     ("TrafficLightCycle", "set", "time_offset"): "hist op `off` (also the unchanged value, numpy ints), in both orders with `es`",
     ("TrafficLightCycle", "set", "active"): "hist keep op `cyc_active`",
     ("TrafficLightCycle", "get", "cycle_init_timesteps"): "hist op `read` (before / after the first query)",
-    ("TrafficLightCycle", "op", "get_state_at_time_step"): "the observation; t as int / numpy.int64 / numpy.int32, negative, huge",
+    ("TrafficLightCycle", "op", "get_state_at_time_step"): "the observation; t as int / numpy.int64 / numpy.int32, negative, huge (|t - offset| up to the int64 edges)",
     ("TrafficLightCycle", "op", "__eq__"): "hist keep op `eq`", ("TrafficLightCycle", "op", "__hash__"): "hist keep op `hash`",
     ("TrafficLightCycle", "op", "__str__"): "hist keep op `str`", ("TrafficLightCycle", "op", "__repr__"): "hist keep op `repr`",
     ("TrafficLight", "ctor", "traffic_light_id"): "0, 1, 7, large",
@@ -155,6 +163,20 @@ def _num(typ, v):
     return {"int": int, "np.int64": np.int64, "np.int32": np.int32}[typ or "int"](v)
 
 
+I64 = 2 ** 63
+
+
+def inside(es, off, t, ttyp=None, ityp=None):
+    """The integers the unmodified library computes exactly (measured on the real code, warnings as errors): the table
+    ends at offset + total <= 2^63 - 1 and t - offset is an int64; when the time step or the offset is numpy-typed, t is an
+    int64 itself.  With Python ints on both sides t may lie beyond int64 as long as t - offset does not."""
+    total = sum(d for _, d in es)
+    if "np.int32" in (ttyp, ityp):
+        return abs(t) + off + total < 2 ** 31 - 1          # everything numpy may compute in 32 bits fits
+    py = ttyp in (None, "int") and ityp in (None, "int")
+    return off + total <= I64 - 1 and -I64 <= t - off <= I64 - 1 and (py or -I64 <= t <= I64 - 1)
+
+
 def oracle_state(es, off, t):
     """Independent walk: element whose window contains (t - off) mod total."""
     total = sum(d for _, d in es)
@@ -206,14 +228,41 @@ def gen_case(ctx):
     ts.add(r.randint(-10 ** 9, 10 ** 9))
     if r.random() < 0.3:
         ts.update([r.randint(-10 ** 15, 10 ** 15), -10 ** 15, 10 ** 15 + off])
-    ts = sorted(ts)
-    if len(ts) > 40:
-        ts = sorted(r.sample(ts, 40))
     v = r.random()
     if v < 0.15:
         case["ttyp"] = "np.int64"
     elif v < 0.3:
         case["ttyp"] = "np.int32"
+    w = r.random()
+    if w < 0.3 and case.get("ttyp") != "np.int32" and case.get("ityp") != "np.int32":
+        # the whole range the library computes exactly in int64 (see `inside`): magnitudes above 2^53 (where a double no longer
+        # holds every integer) up to the int64 edges, for the time step, the offset and the sum of the durations
+        if w < 0.1 and not case.get("noff"):
+            off = r.choice([2 ** 53 + 1, 2 ** 53 + r.randint(2, 10 ** 6), r.randint(2 ** 53, 2 ** 62), 10 ** 17 + 1,
+                            I64 - 1 - total, I64 - 1 - total - r.randint(1, 1000)])
+        elif w < 0.2:
+            i = r.randrange(n)
+            rest = total - es[i][1]
+            es[i][1] = r.choice([2 ** 53 + 1, 2 ** 53 + r.randint(2, 10 ** 6), 2 ** 61, r.randint(2 ** 53, 2 ** 62),
+                                 I64 - 1 - off - rest, I64 - 1 - off - rest - r.randint(1, 1000)])
+            total = sum(d for _, d in es)
+        lo, hi = off - I64, off + I64 - 1          # t - off is an int64
+        far = set()
+        k = (I64 - 1 - total) // total             # the last whole period inside
+        acc = 0
+        for _, d in es[:6]:
+            for per in (-k, -(k // 2 + 1), -(10 ** 16) if 10 ** 16 < k else -k, 10 ** 16 if 10 ** 16 < k else k - 1, k // 3 + 1, k - 1):
+                far.update([off + per * total + acc, off + per * total + acc + d - 1])
+            acc += d
+        far.update([off + 2 ** 53 + 1, off - 2 ** 53 - 1, off + 2 ** 53, off + 2 ** 53 + 2, off + 10 ** 17 + 1, off - 10 ** 17 - 1,
+                    lo, lo + 1, hi, hi - 1, r.randint(lo, hi), r.randint(lo, hi), r.randint(lo, hi)])
+        base = r.choice(sorted(ts))
+        far.update([base + (10 ** 16 % (k + 1)) * total, base - (10 ** 16 % (k + 1)) * total, base + (k // 2) * total])
+        far = [t for t in far if inside(es, off, t, case.get("ttyp"), case.get("ityp"))]
+        ts = set(r.sample(sorted(ts), min(len(ts), 16))) | set(r.sample(far, min(len(far), 24)))
+    ts = sorted(t for t in ts if inside(es, off, t, case.get("ttyp"), case.get("ityp")) or "np.int32" in (case.get("ttyp"), case.get("ityp")))
+    if len(ts) > 40:
+        ts = sorted(r.sample(ts, 40))
     lim = 2 ** 31 - 1
     if case.get("ttyp") == "np.int32" or case.get("ityp") == "np.int32":
         # everything numpy computes in 32 bits has to fit: keep the whole case small
@@ -254,6 +303,21 @@ def run_case(ctx, case):
         ctx.tag("flat/huge-duration")
     if any(abs(t) >= 10 ** 14 for t in ts):
         ctx.tag("flat/huge-t")
+    if any(abs(t - off) > 2 ** 53 for t in ts):
+        ctx.tag("flat/|t-off|>2^53")
+    if any(t - off in (-I64, -I64 + 1, I64 - 1, I64 - 2) for t in ts):
+        ctx.tag("flat/t-off-at-int64-edge")
+    if any(not -I64 <= t <= I64 - 1 for t in ts):
+        ctx.tag("flat/t-beyond-int64")
+    if off > 2 ** 53:
+        ctx.tag("flat/offset>2^53")
+    if total > 2 ** 53:
+        ctx.tag("flat/total>2^53")
+    if off + total == I64 - 1:
+        ctx.tag("flat/table-end-at-int64-max")
+    if any(not inside(es, off, t, ttyp, ityp) for t in ts):
+        ctx.excluded += 1          # a stored case outside the integers the library computes exactly: no verdict (ASSUMPTIONS)
+        return
     ctx.case(case)
 
     def mk():
@@ -302,7 +366,7 @@ def run_case(ctx, case):
     es2 = [[(s + 1) % len(st), d + (i % 2)] for i, (s, d) in enumerate(es)][::-1]
     cyc2 = TrafficLightCycle([TrafficLightCycleElement(st[s], d) for s, d in es2], time_offset=off + 1)
     light.traffic_light_cycle = cyc2
-    for t in ts[:12]:
+    for t in [t for t in ts if inside(es2, off + 1, t)][:12]:
         a2, b2 = call(cyc2.get_state_at_time_step, t), call(light.get_state_at_time_step, t)
         want2 = oracle_state(es2, off + 1, t)
         if b2[:2] != a2[:2] or (b2[0] == "ok" and st.index(b2[1]) != want2):
@@ -328,7 +392,11 @@ def run_case(ctx, case):
         lst.append(TrafficLightCycleElement(st[es3[-1][0]], es3[-1][1]))
         cyc3.cycle_elements = lst
         ctx.tag("cycle/same-list-reassigned")
-    for t in ts[:10] + [off3 + sum(d for _, d in es3) - 1, off3 + sum(d for _, d in es3) - 2]:
+    if not inside(es3, off3, off3):
+        es3, off3 = es, off                 # no room left below 2^63 for a longer / later cycle: the setters put the old values back
+        cyc3.time_offset = off3
+        cyc3.cycle_elements = [TrafficLightCycleElement(st[s], d) for s, d in es3]
+    for t in [t for t in ts if inside(es3, off3, t)][:10] + [off3 + sum(d for _, d in es3) - 1, off3 + sum(d for _, d in es3) - 2]:
         a3 = call(cyc3.get_state_at_time_step, t)
         want3 = oracle_state(es3, off3, t)
         if a3[0] != "ok" or st.index(a3[1]) != want3:
@@ -338,11 +406,15 @@ def run_case(ctx, case):
                      dict(case, ts=ts[:3] + [t]))
             break
     ctx.tag("cycle/setter-after-query")
+    # periodicity, one period and MANY periods apart (as many as fit: up to 10^16 periods / the int64 edge)
     tt = ts[len(ts) // 2]
-    r1, r2 = call(mk().get_state_at_time_step, tt), call(mk().get_state_at_time_step, tt + total)
-    if r1[:2] != r2[:2]:
-        ctx.fail("C17/cycle.get_state_at_time_step/not-periodic", f"state at {tt} and {tt}+{total} differ",
-                 dict(case, ts=[tt, tt + total]))
+    kmax = (off + I64 - 1 - tt) // total
+    for k in [k for k in sorted({1, min(kmax, 10 ** 16), kmax, kmax // 2}) if k >= 1 and inside(es, off, tt + k * total, None, ityp)]:
+        r1, r2 = call(mk().get_state_at_time_step, tt), call(mk().get_state_at_time_step, tt + k * total)
+        if r1[:2] != r2[:2]:
+            ctx.fail("C17/cycle.get_state_at_time_step/not-periodic", f"state at {tt} and {tt}+{k}*{total} differ",
+                     dict(case, ts=[tt, tt + k * total]))
+            break
 
 
 # ------------------------------------------------------------------------------------------------ history stream
@@ -436,7 +508,11 @@ def gen_hist(ctx, force=None):
         for _ in range(k or r.choice([2, 3, 4, 6])):
             u = r.random()
             if u < 0.6:
-                ts.append(["b", r.randrange(6), r.choice([-2, -1, 0, 0, 1, 2, 5]), r.random() < 0.5])
+                per = r.choice([-2, -1, 0, 0, 1, 2, 5])
+                if ttyp != "np.int32" and not small and r.random() < 0.12:
+                    # many periods later / earlier: |t - offset| above 2^53, up to the int64 edge (halved at run time until inside)
+                    per = r.choice([10 ** 16, -10 ** 16, 2 ** 62, -2 ** 62, 2 ** 53 + 1, -(2 ** 53) - 1])
+                ts.append(["b", r.randrange(6), per, r.random() < 0.5])
             elif u < 0.9:
                 ts.append(r.randint(-es_now_total, 2 * es_now_total))
             else:
@@ -716,7 +792,14 @@ def run_hist(ctx, case):
             for x in op[1]:
                 if isinstance(x, list):
                     i = x[1] % len(es_now)
-                    ts.append(off_now + x[2] * total + sum(d for _, d in es_now[:i]) + (es_now[i][1] - 1 if x[3] else 0))
+                    per = x[2]
+                    t = off_now + per * total + sum(d for _, d in es_now[:i]) + (es_now[i][1] - 1 if x[3] else 0)
+                    while not inside(es_now, off_now, t, op[3], ityp) and per not in (0, -1):
+                        per //= 2
+                        t = off_now + per * total + sum(d for _, d in es_now[:i]) + (es_now[i][1] - 1 if x[3] else 0)
+                    ts.append(t)
+                    if abs(t - off_now) > 2 ** 53:
+                        ctx.tag("q/|t-off|>2^53")
                 else:
                     ts.append(x)
             via, ttyp = op[2], op[3]
